@@ -175,3 +175,195 @@ fn k_mont_reduce_sharp() {
     let d = (a as i128) - ((r as i128) << 32);
     assert!(d >= -(2_147_483_648i128 * QL as i128) && d <= 2_147_483_647i128 * QL as i128);
 }
+
+// ---------------------------------------------------------------- public wrappers with the heavy internals stubbed
+// (guard logic, RNG use, argument forwarding). BOUNDED only in the context length (<= 300 bytes; Verus covers every length).
+mod wrap {
+    use crate::ml_dsa_44 as P;
+    use crate::traits::{KeyGen, Signer, Verifier};
+    use crate::types::{Ph, PrivateKey, PublicKey, T};
+    use rand_core::{CryptoRng, RngCore};
+
+    pub struct FakeRng { pub ok: bool, pub bytes: [u8; 32], pub draws: u32 }
+    impl RngCore for FakeRng {
+        fn next_u32(&mut self) -> u32 { panic!("infallible RNG interface used") }
+        fn next_u64(&mut self) -> u64 { panic!("infallible RNG interface used") }
+        fn fill_bytes(&mut self, _dest: &mut [u8]) { panic!("infallible RNG interface used") }
+        fn try_fill_bytes(&mut self, dest: &mut [u8]) -> Result<(), rand_core::Error> {
+            self.draws += 1;
+            assert!(dest.len() == 32);
+            if self.ok {
+                dest.copy_from_slice(&self.bytes);
+                Ok(())
+            } else {
+                // failure after a partial write
+                dest[0] = self.bytes[0];
+                Err(rand_core::Error::from(core::num::NonZeroU32::new(7).unwrap()))
+            }
+        }
+    }
+    impl CryptoRng for FakeRng {}
+
+    const fn t0<const N: usize>() -> [T; N] { [const { T([0i32; 256]) }; N] }
+    fn sk0() -> PrivateKey<4, 4> {
+        PrivateKey { rho: [1u8; 32], cap_k: [2u8; 32], tr: [3u8; 64], s_1_hat_mont: t0(), s_2_hat_mont: t0(), t_0_hat_mont: t0() }
+    }
+    fn pk0() -> PublicKey<4, 4> { PublicKey { rho: [1u8; 32], tr: [3u8; 64], t1_d2_hat_mont: t0() } }
+
+    // stubs: record what the wrapper passed down
+    #[allow(clippy::too_many_arguments)]
+    pub fn stub_sign_internal<const CTEST: bool, const K: usize, const L: usize, const LAMBDA_DIV4: usize, const SIG_LEN: usize, const SK_LEN: usize, const W1_LEN: usize>(
+        _beta: i32, _gamma1: i32, _gamma2: i32, _omega: i32, _tau: i32, _esk: &PrivateKey<K, L>,
+        message: &[u8], ctx: &[u8], oid: &[u8], phm: &[u8], rnd: [u8; 32], nist: bool,
+    ) -> [u8; SIG_LEN] {
+        let mut s = [0u8; SIG_LEN];
+        s[0..32].copy_from_slice(&rnd);
+        s[32] = (ctx.len() % 256) as u8;
+        s[33] = (ctx.len() / 256) as u8;
+        s[34] = oid.len() as u8;
+        s[35] = phm.len() as u8;
+        s[36] = nist as u8;
+        s[37] = message.len() as u8;
+        if oid.len() == 11 { s[38] = oid[10]; }
+        if !phm.is_empty() { s[39] = phm[phm.len() - 1]; }
+        s
+    }
+    pub static mut VI_RESULT: bool = false;
+    pub static mut VI_SEEN: [u8; 8] = [0u8; 8];
+    #[allow(clippy::too_many_arguments)]
+    pub fn stub_verify_internal<const CTEST: bool, const K: usize, const L: usize, const LAMBDA_DIV4: usize, const PK_LEN: usize, const SIG_LEN: usize, const W1_LEN: usize>(
+        _beta: i32, _gamma1: i32, _gamma2: i32, _omega: i32, _tau: i32, _epk: &PublicKey<K, L>, m: &[u8],
+        _sig: &[u8; SIG_LEN], ctx: &[u8], oid: &[u8], phm: &[u8], nist: bool,
+    ) -> bool {
+        unsafe {
+            VI_SEEN = [1, (ctx.len() % 256) as u8, (ctx.len() / 256) as u8, oid.len() as u8, phm.len() as u8, nist as u8, m.len() as u8,
+                       if oid.len() == 11 { oid[10] } else { 0 }];
+            VI_RESULT
+        }
+    }
+    pub fn stub_hash_message(_message: &[u8], ph: &Ph, phm: &mut [u8; 64]) -> ([u8; 11], usize) {
+        let fill: u8 = kani::any();
+        match ph {
+            Ph::SHA256 => { for i in 0..32 { phm[i] = fill; } ([0x06u8, 0x09, 0x60, 0x86, 0x48, 0x01, 0x65, 0x03, 0x04, 0x02, 0x01], 32) }
+            Ph::SHA512 => { for i in 0..64 { phm[i] = fill; } ([0x06u8, 0x09, 0x60, 0x86, 0x48, 0x01, 0x65, 0x03, 0x04, 0x02, 0x03], 64) }
+            Ph::SHAKE128 => { for i in 0..32 { phm[i] = fill; } ([0x06u8, 0x09, 0x60, 0x86, 0x48, 0x01, 0x65, 0x03, 0x04, 0x02, 0x0B], 32) }
+        }
+    }
+    pub fn stub_kgi<const CTEST: bool, const K: usize, const L: usize, const PK_LEN: usize, const SK_LEN: usize>(
+        _eta: i32, xi: &[u8; 32],
+    ) -> (PublicKey<K, L>, PrivateKey<K, L>) {
+        (PublicKey { rho: *xi, tr: [0u8; 64], t1_d2_hat_mont: t0() },
+         PrivateKey { rho: *xi, cap_k: [0u8; 32], tr: [0u8; 64], s_1_hat_mont: t0(), s_2_hat_mont: t0(), t_0_hat_mont: t0() })
+    }
+    fn any_ph() -> Ph { let s: u8 = kani::any(); kani::assume(s < 3); match s { 0 => Ph::SHA256, 1 => Ph::SHA512, _ => Ph::SHAKE128 } }
+    fn any_rng() -> FakeRng { FakeRng { ok: kani::any(), bytes: kani::any(), draws: 0 } }
+
+    /// try_sign_with_rng: |ctx| > 255 => Err and no draw; else exactly one draw, Ok iff it succeeded, rnd = the drawn bytes,
+    /// ctx / message / empty oid+phm / nist=false forwarded
+    #[kani::proof]
+    #[kani::unwind(65)]
+    #[kani::stub(crate::ml_dsa::sign_internal, stub_sign_internal)]
+    fn k_wrap_sign() {
+        let sk = sk0();
+        let mut rng = any_rng();
+        let ctx_buf = [0u8; 300];
+        let n: usize = kani::any();
+        kani::assume(n <= 300);
+        let msg = [9u8; 5];
+        let r = sk.try_sign_with_rng(&mut rng, &msg, &ctx_buf[..n]);
+        if n > 255 {
+            assert!(r.is_err() && rng.draws == 0);
+        } else {
+            assert!(rng.draws == 1);
+            assert!(r.is_ok() == rng.ok);
+            if let Ok(s) = r {
+                assert!(s[0..32] == rng.bytes);
+                assert!(s[32] as usize == n && s[33] == 0 && s[34] == 0 && s[35] == 0 && s[36] == 0 && s[37] == 5);
+            }
+        }
+        core::mem::forget(sk);
+    }
+
+    #[kani::proof]
+    #[kani::unwind(65)]
+    #[kani::stub(crate::ml_dsa::sign_internal, stub_sign_internal)]
+    #[kani::stub(crate::hashing::hash_message, stub_hash_message)]
+    fn k_wrap_hash_sign() {
+        let sk = sk0();
+        let mut rng = any_rng();
+        let ctx_buf = [0u8; 300];
+        let n: usize = kani::any();
+        kani::assume(n <= 300);
+        let msg = [9u8; 5];
+        let ph = any_ph();
+        let want_len: u8 = match ph { Ph::SHA512 => 64, _ => 32 };
+        let want_oid: u8 = match ph { Ph::SHA256 => 0x01, Ph::SHA512 => 0x03, Ph::SHAKE128 => 0x0B };
+        let r = sk.try_hash_sign_with_rng(&mut rng, &msg, &ctx_buf[..n], &ph);
+        if n > 255 {
+            assert!(r.is_err() && rng.draws == 0);
+        } else {
+            assert!(rng.draws == 1);
+            assert!(r.is_ok() == rng.ok);
+            if let Ok(s) = r {
+                assert!(s[0..32] == rng.bytes);
+                assert!(s[32] as usize == n && s[33] == 0 && s[34] == 11 && s[35] == want_len && s[36] == 0 && s[37] == 5 && s[38] == want_oid);
+            }
+        }
+        core::mem::forget(sk);
+    }
+
+    /// verify / hash_verify: false when |ctx| > 255, otherwise exactly what verify_internal returns, with ctx/oid/phm/nist forwarded
+    #[kani::proof]
+    #[kani::stub(crate::ml_dsa::verify_internal, stub_verify_internal)]
+    fn k_wrap_verify() {
+        let pk = pk0();
+        let ctx_buf = [0u8; 300];
+        let n: usize = kani::any();
+        kani::assume(n <= 300);
+        let b: bool = kani::any();
+        unsafe { VI_RESULT = b; VI_SEEN = [0u8; 8]; }
+        let sig = [0u8; P::SIG_LEN];
+        let r = pk.verify(&[9u8; 5], &sig, &ctx_buf[..n]);
+        if n > 255 { assert!(!r); } else {
+            assert!(r == b);
+            unsafe { assert!(VI_SEEN[0] == 1 && VI_SEEN[1] as usize == n && VI_SEEN[2] == 0 && VI_SEEN[3] == 0 && VI_SEEN[4] == 0 && VI_SEEN[5] == 0 && VI_SEEN[6] == 5); }
+        }
+        core::mem::forget(pk);
+    }
+    #[kani::proof]
+    #[kani::unwind(65)]
+    #[kani::stub(crate::ml_dsa::verify_internal, stub_verify_internal)]
+    #[kani::stub(crate::hashing::hash_message, stub_hash_message)]
+    fn k_wrap_hash_verify() {
+        let pk = pk0();
+        let ctx_buf = [0u8; 300];
+        let n: usize = kani::any();
+        kani::assume(n <= 300);
+        let b: bool = kani::any();
+        unsafe { VI_RESULT = b; VI_SEEN = [0u8; 8]; }
+        let sig = [0u8; P::SIG_LEN];
+        let ph = any_ph();
+        let want_len: u8 = match ph { Ph::SHA512 => 64, _ => 32 };
+        let want_oid: u8 = match ph { Ph::SHA256 => 0x01, Ph::SHA512 => 0x03, Ph::SHAKE128 => 0x0B };
+        let r = pk.hash_verify(&[9u8; 5], &sig, &ctx_buf[..n], &ph);
+        if n > 255 { assert!(!r); } else {
+            assert!(r == b);
+            unsafe { assert!(VI_SEEN[0] == 1 && VI_SEEN[1] as usize == n && VI_SEEN[2] == 0 && VI_SEEN[3] == 11 && VI_SEEN[4] == want_len && VI_SEEN[5] == 0 && VI_SEEN[7] == want_oid); }
+        }
+        core::mem::forget(pk);
+    }
+
+    /// key generation with RNG: one draw; Ok iff it succeeded; the keys are those of the seeded variant on exactly the drawn bytes
+    #[kani::proof]
+    #[kani::stub(crate::ml_dsa::key_gen_internal, stub_kgi)]
+    fn k_wrap_keygen() {
+        let mut rng = any_rng();
+        let r = P::KG::try_keygen_with_rng(&mut rng);
+        assert!(rng.draws == 1);
+        assert!(r.is_ok() == rng.ok);
+        if let Ok((pk, sk)) = r {
+            assert!(pk.rho == rng.bytes && sk.rho == rng.bytes);
+            core::mem::forget(pk); core::mem::forget(sk);
+        }
+    }
+}
